@@ -8,7 +8,9 @@ from fractions import Fraction
 
 PROP = "C06"
 # kernels regenerated from /repo's source (tools/py2lean.py) vs the hand model, exhaustive small scope, inside Lean
-TWIN_CHECKS = [{"op": "twin.ngrams_exhaustive", "n": 5}]
+TWIN_CHECKS = [{"op": "twin.ngrams_exhaustive", "n": 5},
+               # sum_coo_entries vs Skipgram.sumCooEntries: every list of <= 4 triples over heads/tails {0,1} x weights {1, 1/2}
+               {"op": "twin.sumcoo_exhaustive", "n": 4}]
 RULE = ("six case kinds. ngram: random corpora over {a..e} (empty documents, documents shorter than n), n in 1..3, "
         "both ngram_behaviour modes, optional pruning / fixed token_dictionary / fixed ngram_dictionary; transform "
         "inputs over a superset alphabet incl. unseen tokens, empty documents, documents missing the tokens of the last "
@@ -486,7 +488,10 @@ def model_requests(case, outs):
     if kind == "grams":
         return [{"op": "ngram.grams", "seq": case["seq"], "n": case["n"], "beh": case["beh"]}]
     if kind == "coo":
-        return [{"op": "coo.sum", "seq": [[a, b, _q(w)] for a, b, w in case["seq"]]}]
+        from . import twinutil
+        return [{"op": "coo.sum", "seq": [[a, b, _q(w)] for a, b, w in case["seq"]]},
+                # the compiled kernel vs the twin regenerated from the current source (validates translator + interpreter)
+                twinutil.call("sum_coo_entries", [[(a, b, Fraction(w)) for a, b, w in case["seq"]]])]
     tid = _tokens_of(case)
     if kind == "ngram":
         if not _well_typed_inv(o) or any(t not in tid for t, _ in o["tok"]):
@@ -615,6 +620,12 @@ def compare(case, outs, resps):
         got = [[a, b, Fraction(w)] for a, b, w in r["ok"]]
         if "sum" not in o or [[a, b, Fraction(w)] for a, b, w in o["sum"]] != got:
             d.append(f"sum_coo_entries impl {o.get('sum', o.get('sum_exc'))} != model {r['ok']}")
+        from . import twinutil
+        tw = resps[1] if len(resps) > 1 else None
+        if tw is not None and not twinutil.unavailable(tw) and "sum" in o:
+            tgot = [list(t) for t in twinutil.pv(tw["ok"])] if "ok" in tw else tw.get("err")
+            if tgot != [[a, b, Fraction(w)] for a, b, w in o["sum"]]:
+                d.append(f"generated twin sum_coo_entries {tw.get('ok', tw.get('err'))} != impl {o['sum']}")
         return d
     if kind == "ngram":
         rX, rXt = resps[0], resps[1]
